@@ -48,9 +48,25 @@ class TlcResult:
 
 
 def fresh_dir(name):
-    d = os.path.join(WORK, name)
-    if os.path.isdir(d):
-        shutil.rmtree(d)
+    """A scratch directory of this process: checks of different properties share engines and may run concurrently, so the
+    directory name carries the process id; directories left by processes that no longer exist are removed."""
+    os.makedirs(WORK, exist_ok=True)
+    for e in os.listdir(WORK):
+        if e.startswith(name + ".") and e[len(name) + 1:].isdigit():
+            pid = int(e[len(name) + 1:])
+            alive = True
+            try:
+                os.kill(pid, 0)
+            except ProcessLookupError:
+                alive = False
+            except PermissionError:
+                pass
+            if not alive or pid == os.getpid():
+                shutil.rmtree(os.path.join(WORK, e), ignore_errors=True)
+    legacy = os.path.join(WORK, name)
+    if os.path.isdir(legacy):
+        shutil.rmtree(legacy, ignore_errors=True)
+    d = os.path.join(WORK, "%s.%d" % (name, os.getpid()))
     os.makedirs(d)
     return d
 
